@@ -79,7 +79,7 @@ func (H) Generate(r *simrt.Rand, tier string) any {
 		}
 	}
 	for i := 0; i < n; i++ {
-		o := Op{L: r.Intn(3), M: r.Intn(3), A: r.Intn(64), B: r.Intn(64), N: r.Intn(15) - 4}
+		o := Op{L: r.Intn(3), M: r.Intn(3), A: r.Intn(4096), B: r.Intn(4096), N: r.Intn(15) - 4}
 		if s.Kind == "list" {
 			o.K = listKinds[r.Intn(len(listKinds))]
 			if o.K == "init" && r.Intn(3) != 0 {
@@ -500,10 +500,14 @@ func runRings(sc *Scenario) (*core.Violation, uint64) {
 		if fmt.Sprint(do1) != fmt.Sprint(do2) {
 			return fail("do", "Do visits %v, container/ring %v", do1, do2), h
 		}
+		// all neighbours first: Len and Do below walk the links, and on a chain that
+		// does not close they would not come back
 		for hi, e := range tab {
 			if !same(e.o.Next(), e.s.Next()) || !same(e.o.Prev(), e.s.Prev()) {
 				return fail("neighbours", "element %d (value %d): Next/Prev differ from container/ring", hi, e.o.Value), h
 			}
+		}
+		for hi, e := range tab {
 			if lo, ls := e.o.Len(), e.s.Len(); lo != ls {
 				return fail("len", "element %d: Len()=%d, container/ring %d", hi, lo, ls), h
 			}
